@@ -36,13 +36,16 @@ func checkC12(h *hx.H, c c12Case) {
 	var inMapEdgeGlobs []string
 	suspectEdges := false
 	suspect := map[string]bool{}
-	nglobs, lateMatches, conflicts := 0, 0, 0
+	nglobs, lateMatches, conflicts, connGlobs := 0, 0, 0, 0
 	for _, s := range c.Prog.Stmts {
 		before := map[string]bool{}
 		b.walk(b.Root, func(o *rObj) { before[foldPath(o.path())] = true })
 		prevInMap := append([]string{}, inMapGlobs...)
 		prevEdgeInMap := len(inMapEdgeGlobs)
 		switch s.Kind {
+		case "globconn":
+			nglobs++
+			connGlobs++
 		case "glob", "edgeglob":
 			nglobs++
 			if !s.Abs && len(s.Scope) > 0 {
@@ -183,6 +186,21 @@ func checkC12(h *hx.H, c c12Case) {
 				h.FailSoft("edges-differ:created-outside-declaring-map", "connections differ:\n reference:\n  %s\n compiled:\n  %s\n%s", strings.Join(w, "\n  "), strings.Join(gg, "\n  "), text)
 			}
 		}()
+	} else if connGlobs >= 2 {
+		// two connection-creating globs: which of the parallel connections they create a
+		// `(* -> *)[*]` glob reaches is inconsistent in d2 (known finding)
+		var w, gg []string
+		for _, e := range we {
+			w = append(w, edgeKey(e, false))
+		}
+		for _, e := range gedges {
+			gg = append(gg, edgeKey(e, false))
+		}
+		sortStrings(w)
+		sortStrings(gg)
+		if strings.Join(w, "\n") != strings.Join(gg, "\n") {
+			h.FailSoft("edges-differ:several-connection-creating-globs", "connections differ:\n reference:\n  %s\n compiled:\n  %s\n%s", strings.Join(w, "\n  "), strings.Join(gg, "\n  "), text)
+		}
 	} else {
 		compareEdges(h, we, gedges, false, text)
 	}
@@ -191,13 +209,76 @@ func checkC12(h *hx.H, c c12Case) {
 			_ = e
 		}
 	}
-	h.NonTrivial(nglobs >= 1 && lateMatches >= 1 && conflicts >= 1)
+	if connGlobs > 0 {
+		h.Label("connection-creating-glob")
+	}
+	h.NonTrivial(nglobs >= 1 && lateMatches >= 1 && (conflicts >= 1 || connGlobs >= 1))
 }
 
 var c12Names = []string{"alpha", "alps", "beta", "bat", "Alpha", "gamma", "tab", "ab", "a", "alphabet", "b"}
 var c12Patterns = []string{"*", "*", "**", "a*", "*a", "al*", "*ta", "a*a", "*b*", "A*", "*T", "b*", "alpha*", "*alpha", "al*bet"}
 
+// genC12Conn: programs at the root scope with connection-creating globs (`* -> *`, `a* -> *`,
+// `hub -> *`): they create a connection between every pair of matching objects, now and when a
+// matching object appears later, never from an object to itself; connection globs
+// (`(* -> *)[*]…`) in force reach the connections so created. One level only (`**` in a
+// connection glob can make compilation diverge, C07 finding), no bodies on the glob (how a
+// body's value and a `(* -> *)[*]` value rank is not stated).
+func genC12Conn(t *rapid.T) c12Case {
+	var prog Program
+	names := []string{"alpha", "alps", "beta", "hub", "Alpha", "tab", "ab"}
+	// (prefix patterns only: whether `*a` is anchored at the end of the name is a gray area, see checkC12)
+	pats := []string{"*", "*", "*", "a*", "al*", "alp*", "b*", "hub", "beta"}
+	n := rapid.IntRange(3, hx.Pick(10, 18)).Draw(t, "n")
+	seen := map[string]bool{}
+	nconn := 0
+	maxConn := 1
+	if gen.Pick(t, "twoconnglobs", 4, 1) == 1 {
+		maxConn = 2
+	}
+	for i := 0; i < n; i++ {
+		switch gen.Pick(t, "ckind", 4, 3, 2, 2, 1) {
+		case 0:
+			prog.Stmts = append(prog.Stmts, Stmt{Kind: "obj", Path: []string{rapid.SampledFrom(names).Draw(t, "on")}})
+		case 1:
+			sp, dp := rapid.SampledFrom(pats).Draw(t, "sp"), rapid.SampledFrom(pats).Draw(t, "dp")
+			if !strings.Contains(sp, "*") && !strings.Contains(dp, "*") {
+				dp = "*"
+			}
+			k := strings.ToLower(sp + ">" + dp)
+			if seen[k] || nconn >= maxConn {
+				continue // a literally repeated glob is dropped as a duplicate (known finding)
+			}
+			seen[k] = true
+			nconn++
+			prog.Stmts = append(prog.Stmts, Stmt{Kind: "globconn", Src: []string{sp}, Dst: []string{dp}})
+		case 2:
+			v := attrValue(t, "style.stroke")
+			k := "eg>" + v
+			if seen[k] {
+				continue
+			}
+			seen[k] = true
+			prog.Stmts = append(prog.Stmts, Stmt{Kind: "edgeglob", Key: "style.stroke", Value: &v})
+		case 3:
+			prog.Stmts = append(prog.Stmts, Stmt{Kind: "conn", Src: []string{rapid.SampledFrom(names).Draw(t, "cs")}, Dst: []string{rapid.SampledFrom(names).Draw(t, "cd")}, Arrow: "->"})
+		default:
+			v := attrValue(t, "style.fill")
+			k := "fg>" + v
+			if seen[k] {
+				continue
+			}
+			seen[k] = true
+			prog.Stmts = append(prog.Stmts, Stmt{Kind: "glob", Pattern: "*", Key: "style.fill", Value: &v})
+		}
+	}
+	return c12Case{Prog: prog}
+}
+
 func genC12(t *rapid.T) c12Case {
+	if gen.Pick(t, "connglobs", 3, 1) == 1 {
+		return genC12Conn(t)
+	}
 	var prog Program
 	n := rapid.IntRange(3, hx.Pick(12, 24)).Draw(t, "n")
 	scopes := [][]string{nil, nil, {"box"}, {"box", "inner"}}
